@@ -209,6 +209,10 @@ def run_entry(label, thunk, expected) -> Tuple[List[str], List[Tuple[str, str, s
     try:
         with numpy.errstate(all="ignore"):
             r = thunk()
+            if not getattr(run_entry, "_second", False):
+                # the caller overwrites what it was handed, then asks again: the answer must be computed from the inputs again
+                H.scribble([r])
+                r = thunk()
         got = {tuple(int(v) for v in e): numpy.asarray(c) for e, c in zip(r.exponents.tolist(), r.coefficients)}
         any_exp = next(iter(expected.values()))
         if r.dtype != any_exp.dtype:
